@@ -16,6 +16,7 @@ pub const TAG_P: u64 = 0x50;
 const TIMEOUT_S: u32 = 20;
 
 pub struct Ctx {
+    pub corpus_dir: PathBuf,
     pub pdlc: PathBuf,
     pub shim: PathBuf,
     pub launcher: PathBuf,
@@ -33,6 +34,9 @@ pub struct Job {
     pub extra_excl: Vec<String>,
     /// literal override (replay of minimised sources)
     pub text_override: Option<String>,
+    /// further options (part of the job: the reference run carries them too), e.g.
+    /// `--test-file le_test_vectors.json`, `--namespace a::b`
+    pub extra_args: Vec<String>,
 }
 
 impl Job {
@@ -61,6 +65,7 @@ impl Job {
             v.push("--custom-field".into());
             v.push(cf.clone());
         }
+        v.extend(self.extra_args.iter().cloned());
         v
     }
     pub fn to_json(&self, c: &Corpus) -> Value {
@@ -69,6 +74,7 @@ impl Job {
             "sibling": self.sibling.as_ref().map(|s| s.to_json()),
             "backend": self.backend.name(),
             "extra_exclude": self.extra_excl,
+            "extra_args": self.extra_args,
             "file_name": self.name(c),
             "args": self.args(c),
             "source_text": self.text(c),
@@ -289,6 +295,14 @@ impl WorkerDir {
         std::fs::create_dir_all(root.join("a/src")).unwrap();
         std::fs::create_dir_all(root.join("deep/er/b/src")).unwrap();
         WorkerDir { root }
+    }
+    /// Second-input files (test vectors) under the same relative name in both cwd copies.
+    pub fn install_aux(&self, corpus_dir: &Path) {
+        for f in ["le_test_vectors.json", "be_test_vectors.json"] {
+            for b in [false, true] {
+                let _ = std::fs::copy(corpus_dir.join(f), self.cwd(b).join(f));
+            }
+        }
     }
     pub fn cwd(&self, b: bool) -> PathBuf {
         if b {
@@ -595,7 +609,20 @@ pub fn draw_job(rng: &mut Rng, c: &Corpus) -> Job {
     let entry = if !heavy.is_empty() && rng.below(3) == 0 { *rng.pick(&heavy) } else { rng.below(c.entries.len() as u64) as usize };
     let backend = *rng.pick(&BACKENDS);
     let sibling = if rng.below(5) == 0 { Some(Sibling::draw(rng)) } else { None };
-    Job { entry, sibling, backend, extra_excl: vec![], text_override: None }
+    let mut extra_args: Vec<String> = Vec::new();
+    let id = c.entries[entry].id.as_str();
+    if (id == "canonical_le" || id == "canonical_be") && matches!(backend, Backend::Rust | Backend::Java) && sibling.is_none() && rng.below(4) == 0 {
+        // the test-generation front end (reads a second input file)
+        extra_args.push("--test-file".into());
+        extra_args.push(if id == "canonical_le" { "le_test_vectors.json".into() } else { "be_test_vectors.json".into() });
+    }
+    if backend == Backend::Cxx && rng.below(3) == 0 {
+        extra_args.extend(["--namespace".to_string(), "verif::ns".to_string()]);
+        if rng.below(2) == 0 {
+            extra_args.extend(["--include-header".to_string(), "verif_extra.h".to_string(), "--using-namespace".to_string(), "verif::other".to_string()]);
+        }
+    }
+    Job { entry, sibling, backend, extra_excl: vec![], text_override: None, extra_args }
 }
 
 fn compare_java(reference: &ProcOut, got: &ProcOut, exact_set: bool) -> Option<String> {
@@ -774,7 +801,7 @@ pub fn execute(ctx: &Ctx, wd: &WorkerDir, job: &Job, p: &Perturb, st: &mut RunSt
 /// Declaration graph of the job's source after the backend's standing excludes.
 pub fn decl_graph(ctx: &Ctx, wd: &WorkerDir, job: &Job, text: &str, st: &mut RunStats) -> Option<DeclGraph> {
     let c = &ctx.corpus;
-    let mut jjob = Job { backend: Backend::Json, extra_excl: vec![], ..job.clone() };
+    let mut jjob = Job { backend: Backend::Json, extra_excl: vec![], extra_args: vec![], ..job.clone() };
     // the JSON run must carry the same standing exclude list as the backend job
     jjob.extra_excl = c.entries[job.entry].opts_for(job.backend).exclude.clone();
     let jr = reference(ctx, wd, &jjob, text);
@@ -865,7 +892,7 @@ pub fn run_one(ctx: &Ctx, wd: &WorkerDir, seed: u64, run: u64) -> RunResult {
     let mut st = RunStats::default();
     let mut violation = None;
     // one run in four also exercises an exclusion set; the perturbed run then uses the E-job
-    if rng.below(4) == 0 {
+    if rng.below(4) == 0 && job.extra_args.is_empty() {
         let (ej, v) = execute_exclusion(ctx, wd, &job, &mut rng, &mut st);
         violation = v;
         if let Some(ej) = ej {
